@@ -28,7 +28,7 @@ func Minimize(tr *Trace, sig string, opts RunOpts, budget time.Duration) (*Trace
 			return false
 		}
 		for _, v := range r.Violations {
-			if v.Signature() == sig {
+			if v.Signature() == sig || (len(sig) > 4 && sig[:4] == "C01/" && v.Property == "C01") {
 				c.Violation = v
 				return true
 			}
